@@ -304,6 +304,14 @@ func proofToPath(
 		if !ok {
 			return nil, fmt.Errorf("proof node not found, expected hash: %s", hash.String())
 		}
+		// The proof set is keyed by hash, so two identical subtrees share one entry.
+		// Every position in the reconstructed trie needs its own node object.
+		switch n := n.(type) {
+		case *trienode.BinaryNode:
+			return n.Copy(), nil
+		case *trienode.EdgeNode:
+			return n.Copy(), nil
+		}
 		return n, nil
 	}
 
